@@ -5,5 +5,5 @@ SPEC_PART = dict(
     trusted=["tdigest: the bound on the number of centroids (2k + 30) is measured, not proved (C15's analytic half)"],
     assumptions=[],
     covers="tdigest: image size = 8 | 16 | 32 + 16 * centroids; in-process buffer <= 4 * (2k + fudge) (Props/C18_tdigest.v); tie: "
-           "serialize().len() after every power-of-two prefix of streams up to 2^14 (quick) / 2^18 (thorough) values checked against the "
+           "serialize().len() after every power-of-two prefix of streams up to 2^14 (quick) / 2^16 (thorough) values checked against the "
            "formula, centroids <= 2k + 30 measured on every dump")
